@@ -24,5 +24,11 @@ def run(ctx):
     # "the replication start" the clock is reset to, and the warm-up time, are what the replication object reports (shared rule with C02 / C03 / C11)
     ctx.uses('experiment')
     S.replication_frame(ctx, 'R6.6')
+    # "discards every event still pending": initialize relies on the event list's clear() and on its membership answers afterwards
+    # (observers and heap discipline: shared rules with C01)
+    from . import c01
+    ctx.uses('eventlist', 'simevent')
+    for cname_ in ctx.prog.subclasses('EventListInterface'):
+        c01.check_eventlist(ctx, cname_)
     # replications are chained from END_REPLICATION listeners: the end must be announced last (shared rule with C04)
     S.r43_notifications(ctx, sc)
